@@ -7,7 +7,7 @@
    Part B: AdministrativeInformation (AASd-005), HasSemantics (AASd-118), DataElement.category
            (AASd-090), typed values (AASd-020), BasicEventElement, LangStringSet            *)
 From Coq Require Import List ZArith Bool.
-From Basyx Require Import model.ConstraintsBase gen.Gen_BeeChecks.
+From Basyx Require Import model.ConstraintsBase gen.Gen_BeeChecks gen.Gen_SemSetter.
 Import ListNotations.
 Local Open Scope Z_scope.
 
@@ -21,7 +21,9 @@ Inductive garg : Type := GNone | GOk (n : nat) | GBad.
 Definition g_present (g : garg) : bool := match g with GNone => false | _ => true end.
 
 (* OSem: any HasSemantics object; gaid = the semantic_id (absent / present), items = the
-   supplemental_semantic_id list (AASd-118) *)
+   supplemental_semantic_id list (AASd-118), etype = the object is contained in a namespace
+   (parent is not None): SetType true/false stand for adding it to / removing it from a
+   container.  The semantic_id setter is translated (gen/Gen_SemSetter.v), containment included. *)
 Inductive owner : Type := OEntity | OAsset | OSem.
 
 (* etype: true = SELF_MANAGED_ENTITY (unused for AssetInformation); items: the
@@ -170,7 +172,8 @@ Definition effect (o : owner) (s : st) (p : op) : err + (st * out) :=
   | SetType t =>
       match o with
       | OEntity => inr (mkSt t (gaid s) l, OK)
-      | _ => inl EAttr                            (* only Entity has an entity type; never generated *)
+      | OSem => inr (mkSt t (gaid s) l, OK)       (* attach to / detach from a container *)
+      | OAsset => inl EAttr                       (* AssetInformation has no entity type; never generated *)
       end
   | SetGaid g =>
       match validate_gid g with                   (* _validate_global_asset_id comes first *)
@@ -200,8 +203,12 @@ Definition hooks (o : owner) (s : st) (p : op) : option err :=
   | SetList xs => set_hook o s (len l) (len l) (len xs)
   | DelSlice start stop =>
       let '(lo, hi) := slice_bounds l start stop in del_dry_run o s (len l) (Z.to_nat (hi - lo))
-  | SetType t => validate o t (gaid s) (nonempty l)
-  | SetGaid g => validate o (etype s) g (nonempty l)
+  | SetType t => match o with OSem => None | _ => validate o t (gaid s) (nonempty l) end
+  | SetGaid g =>
+      match o with
+      | OSem => sem_setter_check (negb (g_present g)) (len l) (etype s) false   (* no SDK namespace is keyed by semantic id *)
+      | _ => validate o (etype s) g (nonempty l)
+      end
   | ExtendBad | SetSliceBad _ _ => None
   end.
 
